@@ -19,7 +19,7 @@ DEVS = ["default.qubit", "default.mixed", "reference.qubit", "null.qubit"]
 IFACES = ["numpy", "autograd", "jax", "torch"]
 DIFFS = [None, "backprop", "parameter-shift", "adjoint", "finite-diff"]
 F_BATCH1 = "finding:batch1_finite_shots_drops_batch_axis"
-F_STATE_MIXED = "finding:state_on_default_mixed_is_density_matrix"
+F_BATCH1_SUM = "finding:batch1_analytic_sum_observable_drops_batch_axis"
 
 
 # ------------------------------------------------------------------ requests
@@ -64,9 +64,9 @@ def gen_mps(rng, nw, finite, kinds=None, nmax=4):
     return out
 
 
-def gen_req(rng, finite=None, kinds=None, batch=True):
+def gen_req(rng, finite=None, kinds=None, batch=True, nw=None):
     shots = gen_shots(rng, finite)
-    nw = rng.choice([2, 3])
+    nw = nw or rng.choice([2, 3])
     B = rng.choice([None, None, None, None, 1, 2, 3]) if batch else None
     return {"shots": shots, "nw": nw, "B": B, "mps": gen_mps(rng, nw, shots is not None, kinds)}
 
@@ -89,14 +89,10 @@ def valid_cfg(dev, iface, diff, req, jac=False):
         if finite or dev in ("default.mixed", "reference.qubit"):
             return False
         if dev == "default.qubit":
-            return ks <= {"expval"} and all(m.get("o", 0) != 3 or True for m in req["mps"])
+            return ks <= {"expval"}
         return True
     # gradient transforms
-    if jac and not ks <= {"expval", "var", "probs"}:
-        return False
-    if diff == "parameter-shift" and not jac and (ks & {"state", "dm"}):
-        return True
-    return True
+    return not (jac and not ks <= {"expval", "var", "probs"})
 
 
 def valid_jac_iface(iface, req):
@@ -109,11 +105,19 @@ def valid_jac_iface(iface, req):
     return iface == "jax"
 
 
+SLOW = {"budget": 0}      # default.mixed under jax dispatches every tensor op through XLA: seconds per execution
+
+
 def pick_cfgs(rng, req, k, jac=False, must_backprop=False):
     allc = [(d, i, m) for d in DEVS for i in IFACES for m in DIFFS
             if valid_cfg(d, i, m, req, jac) and (not jac or valid_jac_iface(i, req))
             and (not must_backprop or m == "backprop")]
     rng.shuffle(allc)
+    slow = [c for c in allc if c[0] == "default.mixed" and c[1] == "jax"]
+    allc = [c for c in allc if c not in slow]
+    if slow and SLOW["budget"] > 0 and rng.random() < 0.3:
+        SLOW["budget"] -= 1
+        allc.insert(0, slow[0])
     out, seen_dev = [], set()
     for c in allc:                       # spread over devices first
         if c[0] not in seen_dev:
@@ -126,43 +130,60 @@ def pick_cfgs(rng, req, k, jac=False, must_backprop=False):
     return out[:max(k, 0)]
 
 
-# ------------------------------------------------------------------ python mirror (only to recognise the two known deviations)
-def py_leaf(m, s, nw, B, squeeze1=False, mixed_state=False):
+# ------------------------------------------------------------------ python mirror (only to recognise the KNOWN batch-size-1 deviations)
+def py_leaf(m, s, nw, B, dev):
     k, w = m["k"], m.get("w", 0)
     if k == "counts":
         return "O" if not B else {"T": ["O"] * B}
     d = {"expval": [], "var": [], "probs": [2 ** (w or nw)], "sample": [s, w or nw], "sampleobs": [s],
-         "state": [2 ** nw, 2 ** nw] if mixed_state else [2 ** nw], "dm": [2 ** w, 2 ** w]}[k]
-    if B and not (squeeze1 and k in ("expval", "var", "probs")):
-        d = [B] + d
-    return {"L": d}
+         "state": [2 ** nw, 2 ** nw] if dev == "default.mixed" else [2 ** nw], "dm": [2 ** w, 2 ** w]}[k]
+    if not B:
+        return {"L": d}
+    t = {"L": [B] + d}
+    if B == 1 and dev != "null.qubit":
+        # squeeze sites: process_samples of expval/var/probs (finite shots); sum-of-terms expval (analytic)
+        if (s is not None and k in ("expval", "var", "probs")) or (s is None and k == "expval" and m.get("o", 0) == 3):
+            t["alt"] = (F_BATCH1 if s is not None else F_BATCH1_SUM, d)
+    return t
 
 
-def py_model(req, **kw):
+def py_model(req, dev=None):
     ss = expand_shots(req["shots"])
     copies = []
     for s in (ss if ss is not None else [None]):
-        ts = [py_leaf(m, s, req["nw"], req["B"], **kw) for m in req["mps"]]
+        ts = [py_leaf(m, s, req["nw"], req["B"], dev) for m in req["mps"]]
         copies.append(ts[0] if len(ts) == 1 else {"T": ts})
     return {"T": copies} if ss is not None and len(ss) > 1 else copies[0]
 
 
+def match_alt(o, m, used):
+    """o == m where marked leaves may also appear without their batch axis (recorded in `used`)"""
+    if m == "O" or o == "O":
+        return o == m
+    if "T" in m:
+        return "T" in o and len(o["T"]) == len(m["T"]) and all(match_alt(a, b, used) for a, b in zip(o["T"], m["T"]))
+    if "L" not in o:
+        return False
+    if o["L"] == m["L"]:
+        return True
+    if "alt" in m and o["L"] == m["alt"][1]:
+        used.add(m["alt"][0])
+        return True
+    return False
+
+
 def known_deviation(case, o):
-    """returns the fixed finding key if `o` is exactly one of the two documented deviations"""
+    """the fixed finding key if `o` is the model up to the KNOWN loss of a size-1 batch axis, else None"""
     if case["mode"] not in ("res", "batch"):
         return None
-    reqs = case["reqs"] if case["mode"] == "batch" else [case["req"]]
-    hit = None
-    alts = []
-    for r in reqs:
-        if r["B"] == 1 and r["shots"] is not None and case["dev"] != "null.qubit":
-            alts.append(py_model(r, squeeze1=True)); hit = F_BATCH1
-        elif case["dev"] == "default.mixed" and "state" in kinds_of(r):
-            alts.append(py_model(r, mixed_state=True)); hit = hit or F_STATE_MIXED
-        else:
-            alts.append(py_model(r))
-    alt = {"T": alts} if case["mode"] == "batch" else alts[0]
-    return hit if hit and alt == o else None
+    used = set()
+    if case["mode"] == "batch":
+        m = {"T": [py_model(r, case["dev"]) for r in case["reqs"]]}
+    else:
+        m = py_model(case["req"], case["dev"])
+    if match_alt(o, m, used) and used:
+        return sorted(used)[0]
+    return None
 
 
 # ------------------------------------------------------------------ Gallina printers
@@ -172,7 +193,9 @@ def g_mp(m):
         or {"probs": "KProbs", "sample": "KSample", "dm": "KDM"}[k] + " " + gz(m.get("w", 0))
 
 
-def g_req(r):
+def g_req(r, dev=None):
+    if dev == "default.mixed":   # documented device behaviour: qp.state() is answered with density_matrix(all device wires)
+        r = dict(r, mps=[{"k": "dm", "w": r["nw"]} if m["k"] == "state" else m for m in r["mps"]])
     ss = expand_shots(r["shots"])
     sp = "NoShots" if ss is None else f"(ShotList {glist(ss, gz)})"
     return f"(mkReq {sp} {gz(r['nw'])} {gopt(r['B'], gz)} {glist(['(' + g_mp(m) + ')' if ' ' in g_mp(m) else g_mp(m) for m in r['mps']])})"
@@ -198,9 +221,9 @@ def g_tree(t):
 def g_case(c):
     m = c["mode"]
     if m == "res":
-        return f"CRes {g_cfg(c)} {g_req(c['req'])}"
+        return f"CRes {g_cfg(c)} {g_req(c['req'], c['dev'])}"
     if m == "batch":
-        return f"CBatch {g_cfg(c)} {glist(c['reqs'], g_req)}"
+        return f"CBatch {g_cfg(c)} {glist(c['reqs'], lambda r: g_req(r, c['dev']))}"
     if m == "jac":
         return f"CJac {g_cfg(c)} {g_req(c['req'])} {glist(c['params'], lambda p: glist(p, gz))}"
     if m == "tapejac":
@@ -240,6 +263,7 @@ CORPUS_REQS = [
 def gen_cases(ctx):
     rng = ctx.rng
     q = ctx.tier == "quick"
+    SLOW["budget"] = 2 if q else 24
     n_res, k_res = (34, 4) if q else (220, 7)
     n_jac, k_jac = (14, 4) if q else (90, 7)
     n_tj = 8 if q else 50
@@ -259,7 +283,8 @@ def gen_cases(ctx):
         cases.append(mk("res", (d, rng.choice(IFACES), None), req=r))
     # batches of circuits
     for _ in range(n_batch):
-        rs = [gen_req(rng) for _ in range(rng.choice([1, 2, 3]))]
+        nw = rng.choice([2, 3])          # one device: wire-less measurements use its wire count
+        rs = [gen_req(rng, nw=nw) for _ in range(rng.choice([1, 2, 3]))]
         d = rng.choice(DEVS)
         cases.append(mk("batch", (d, rng.choice(IFACES), None), reqs=rs))
     # Jacobians through the interfaces
@@ -274,7 +299,7 @@ def gen_cases(ctx):
         npar = rng.choice([1, 1, 2, 2, 3])
         ps = [rng.choice([[], [], [2], [3], [2, 2]]) for _ in range(npar)]
         if bparam:
-            b = rng.choice([1, 2, 3])
+            b = rng.choice([2, 3])      # size-1 batches: see the KNOWN findings
             r["B"] = b
             ps[0] = [b]
         jreqs.append((r, ps, bparam))
@@ -296,7 +321,9 @@ def gen_cases(ctx):
 
 
 def req_key(c):
-    return json.dumps({k: c.get(k) for k in ("req", "reqs", "params", "P") if k in c} |
+    rs = c["reqs"] if "reqs" in c else [c["req"]]
+    sub = c["mode"] in ("res", "batch") and c["dev"] == "default.mixed" and any("state" in kinds_of(r) for r in rs)
+    return ("mixed-state-substitution:" if sub else "") + json.dumps({k: c.get(k) for k in ("req", "reqs", "params", "P") if k in c} |
                       {"m": {"res": "res", "struct": "res", "batch": "batch", "jac": "jac", "tapejac": "jac1",
                              "jacstruct": "jac1"}[c["mode"]]}, sort_keys=True)
 
@@ -336,9 +363,9 @@ def run(ctx):
             nontrivial.add(req_key(c) + c["dev"] + str(c["iface"]) + str(c["diff"]))
         kd = known_deviation(c, o)
         if kd:
-            ctx.violation(kd, {"case": c, "observed": o, "model": py_model(c["req"]) if "req" in c else None},
+            ctx.violation(kd, {"case": c, "observed": o},
                           what={F_BATCH1: "broadcast size 1 with finite shots: expval/var/probs lose the leading batch axis (math.squeeze in process_samples) on default.qubit/default.mixed/reference.qubit",
-                                F_STATE_MIXED: "qp.state() on default.mixed returns the (2^n,2^n) density matrix instead of the (2^n,) state shape"}[kd])
+                                F_BATCH1_SUM: "broadcast size 1, analytic: expval of a Hamiltonian/LinearCombination loses the leading batch axis (math.squeeze in the sum-of-terms measurement, devices/qubit/measure.py:118, qubit_mixed/measure.py:148, reference.qubit) while other observables and null.qubit keep it"}[kd])
             continue
         terms.append(f"({g_case(c)}, Some {g_tree(o)})"); idx.append(i)
         groups.setdefault(req_key(c), []).append(i)
